@@ -164,6 +164,10 @@ Deep ==
     \* different explicit high tags of one class (self-describing)
     [k |-> "seq", tags |-> <<>>, comps |-> << Comp("p", Sc("int", <<CtxE(40)>>), "req"), Comp("q", Sc("octs", <<CtxE(41)>>), "req"),
                                               Comp("r", Sc("bool", <<CtxE(1000)>>), "opt") >>],
+    \* DEFAULT components of string-like kinds
+    [k |-> "seq", tags |-> <<>>, comps |-> << Comp("a", Sc("int", <<>>), "req"),
+                                              CompD("b", Sc("bits", <<>>), [bits |-> <<1, 0, 1>>]),
+                                              CompD("c", Sc("octs", <<Ctx(0)>>), [o |-> <<97>>]) >>],
     \* OPTIONAL and DEFAULT components in a row, followed by a mandatory one
     [k |-> "seq", tags |-> <<>>, comps |-> << Comp("id", Sc("int", <<>>), "req"), Comp("name", Sc("utf8", <<>>), "opt"),
                                               CompD("flag", Sc("bool", <<>>), [b |-> FALSE]),
